@@ -255,15 +255,27 @@ def run(ctx):
 
     # ---- 1. program space from TLC ------------------------------------------------------
     K = 6 if thorough else 5
-    cfgtxt = ("SPECIFICATION Spec\nCONSTANTS K = %d\n MaxDepth = %d\n MaxDefer = 3\n"
-              "CONSTRAINT Collect\nPOSTCONDITION Post\nCHECK_DEADLOCK FALSE\n" % (K, 3 if thorough else 2))
+    ALL = '{"d","i","e","x","f","F","b","c","r","p","w","k","l","g"}'
+    cfgtxt = ("SPECIFICATION Spec\nCONSTANTS K = %d\n MaxDepth = %d\n MaxDefer = 3\n Alphabet = %s\n"
+              "CONSTRAINT Collect\nPOSTCONDITION Post\nCHECK_DEADLOCK FALSE\n" % (K, 3 if thorough else 2, ALL))
     r = ctx.tlc_must_pass("CfgSpace", cfg="CfgSpaceRun.cfg", data={"CfgSpaceRun.cfg": cfgtxt}, timeout=1500,
                           deadlock=False, xmx="8g")
     bodies = [x["t"] for x in vlib.read_ndjson(os.path.join(r.dir, "cfgs.ndjson"))]
     exhaustive_n = len(bodies)
     # longer bodies by seeded simulation of the same generator spec
-    simcfg = ("SPECIFICATION Spec\nCONSTANTS K = 12\n MaxDepth = 3\n MaxDefer = 4\n"
-              "CONSTRAINT Collect\nPOSTCONDITION Post\nCHECK_DEADLOCK FALSE\n")
+    simcfg = ("SPECIFICATION Spec\nCONSTANTS K = 12\n MaxDepth = 3\n MaxDefer = 6\n Alphabet = %s\n"
+              "CONSTRAINT Collect\nPOSTCONDITION Post\nCHECK_DEADLOCK FALSE\n" % ALL)
+    # second exhaustive configuration: long runs of defers over the branching alphabet only (wide stacks)
+    widecfg = ("SPECIFICATION Spec\nCONSTANTS K = %d\n MaxDepth = 1\n MaxDefer = 8\n Alphabet = {\"d\",\"i\",\"e\",\"x\",\"F\",\"b\"}\n"
+               "CONSTRAINT Collect\nPOSTCONDITION Post\nCHECK_DEADLOCK FALSE\n" % (10 if thorough else 9))
+    rw = ctx.tlc_must_pass("CfgSpace", cfg="CfgSpaceWide.cfg", data={"CfgSpaceWide.cfg": widecfg}, timeout=1500,
+                           deadlock=False, xmx="8g")
+    wide = [x["t"] for x in vlib.read_ndjson(os.path.join(rw.dir, "cfgs.ndjson"))]
+    wide = [t for t in wide if t.count("d") >= 4]
+    wide.sort()
+    if not thorough:
+        random.Random(ctx.seed + 5).shuffle(wide)
+        wide = sorted(wide[:700])
     nsim = 3000 if thorough else 400
     r2 = ctx.tlc_must_pass("CfgSpace", cfg="CfgSpaceSim.cfg", data={"CfgSpaceSim.cfg": simcfg}, timeout=900,
                            simulate="num=%d" % nsim, depth=13, seed=ctx.seed, deadlock=False)
@@ -273,6 +285,7 @@ def run(ctx):
     rnd.shuffle(sim)
     sim = sim[: (6000 if thorough else 600)]
     bodies += sim
+    bodies += [t for t in wide if t not in bodies]
     if exhaustive_n < 100:
         raise Inconclusive("CfgSpace produced only %d bodies" % exhaustive_n)
 
@@ -421,7 +434,7 @@ def run(ctx):
     ctx.extra.update({
         "programs": len(bodies), "functions_checked": len(everything), "generated_functions": len(allfuncs),
         "std_functions": len(stdfuncs), "exhaustive_bodies_K": K, "exhaustive_bodies": exhaustive_n,
-        "simulated_bodies": len(sim), "reported_unbounded": nunb, "bodies_without_reachable_defer": nodefer, "native_runs": nruns,
+        "simulated_bodies": len(sim), "wide_defer_bodies": len(wide), "reported_unbounded": nunb, "bodies_without_reachable_defer": nodefer, "native_runs": nruns,
         "explanation": "states = (function, block, instruction, defer stack) points of all CFG paths explored by TLC "
                        "over real SSA CFGs + states of the generator spec",
     })
